@@ -1025,6 +1025,13 @@ class Spec(object):
         if isinstance(v, Guard):
             return phi(v.cond, self.getattr(v.a, attr, env), self.getattr(v.b, attr, env))
         if is_sym(v):
+            if isinstance(v, Op) and v.op == "call" and len(v.args) == 2 and isinstance(v.args[0], Op) and v.args[0].op == "attr" and v.args[0].args[1] == "_replace" \
+                    and isinstance(v.args[1], tuple) and all(isinstance(p_, tuple) and len(p_) == 2 and isinstance(p_[0], str) for p_ in v.args[1]):
+                # record._replace(field=value, ...): the replaced fields are the given values, every other field is the original record's
+                for k_, val_ in v.args[1]:
+                    if k_ == attr:
+                        return val_
+                return self.getattr(v.args[0].args[0], attr, env)
             if isinstance(v, Op) and v.op == "new" and isinstance(v.args[1], tuple):
                 for k, val in v.args[1]:
                     if k == attr:
